@@ -1,11 +1,12 @@
 (* The crate-decoder MODEL (Model/Wire.v) reads the same content as the independent REFERENCE
    parser (Model/Rfc1035.v) on every datagram the reference parser accepts and whose content
-   is within the decoder's vocabulary (UTF-8 labels, record types PTR/CNAME/SRV/TXT/A/AAAA
-   with A of 4 and AAAA of 16 octets, question types known to RRType::from_u16).
+   is within the decoder's vocabulary (UTF-8 labels, names whose dotted text re-splits into
+   labels of at most 63 bytes (Wire.name_fits), record types PTR/CNAME/SRV/TXT/A/AAAA with A of
+   4 and AAAA of 16 octets, question types known to RRType::from_u16).
 
    No statement had to be weakened: there is no `_partial` item in this file. *)
 From Coq Require Import List NArith Bool Lia Arith PeanoNat ZifyBool ZifyNat ZifyN.
-From Mdns Require Import Res Bytes Utf8 Rec Wire WireOut Rfc1035 C02Spec WireProofs.
+From Mdns Require Import Res Bytes Utf8 Rec Wire WireOut Rfc1035 C02Spec WireProofs EscapeProofs.
 Import ListNotations.
 Open Scope N_scope.
 
@@ -132,13 +133,83 @@ Proof.
     rewrite dotted_app, app_assoc. reflexivity.
 Qed.
 
+(* the loop of read_name, before the name_fits test *)
+Lemma read_name_raw_ref : forall d off ls n,
+  wf_bytes d -> ref_name d off = Some (ls, n) -> labels_ok ls ->
+  read_name_raw d off = Ok (dotted ls, n).
+Proof.
+  intros d off ls n Hwf H Hok. unfold read_name_raw, ref_name in *.
+  rewrite (ref_name_from_rn _ _ _ _ _ _ [] None Hwf H Hok). reflexivity.
+Qed.
+
 (* Target A *)
 Lemma read_name_ref : forall d off ls n,
   wf_bytes d -> ref_name d off = Some (ls, n) -> labels_ok ls ->
+  name_fits (dotted ls) = true ->
   read_name d off = Ok (dotted ls, n).
 Proof.
-  intros d off ls n Hwf H Hok. unfold read_name, ref_name in *.
-  rewrite (ref_name_from_rn _ _ _ _ _ _ [] None Hwf H Hok). reflexivity.
+  intros d off ls n Hwf H Hok Hfit. unfold read_name.
+  rewrite (read_name_raw_ref d off ls n Hwf H Hok). cbn [bind]. rewrite Hfit. reflexivity.
+Qed.
+
+(* without the hypothesis, the decoder rejects exactly when the dotted text does not fit *)
+Lemma read_name_ref_unfit : forall d off ls n,
+  wf_bytes d -> ref_name d off = Some (ls, n) -> labels_ok ls ->
+  name_fits (dotted ls) = false -> read_name d off = Err.
+Proof.
+  intros d off ls n Hwf H Hok Hfit. unfold read_name.
+  rewrite (read_name_raw_ref d off ls n Hwf H Hok). cbn [bind]. rewrite Hfit. reflexivity.
+Qed.
+
+(* ---- the name_fits condition is harmless for ordinary names: labels of 1..63 bytes
+        without '.' and '\' re-split into themselves ---- *)
+
+Lemma pen_simple : forall l s cur acc, ~ In 46 l -> ~ In 92 l ->
+  pen (l ++ s) cur acc = pen s (cur ++ l) acc.
+Proof.
+  induction l as [|c l IH]; intros s cur acc H46 H92.
+  - cbn [app]. rewrite app_nil_r. reflexivity.
+  - cbn [app pen]. unfold BSL, DOT.
+    destruct (c =? 92) eqn:E92; [apply N.eqb_eq in E92; subst c; exfalso; apply H92; left; reflexivity|].
+    destruct (c =? 46) eqn:E46; [apply N.eqb_eq in E46; subst c; exfalso; apply H46; left; reflexivity|].
+    rewrite IH; [|intros Hin; apply H46; right; exact Hin|intros Hin; apply H92; right; exact Hin].
+    rewrite <- app_assoc. reflexivity.
+Qed.
+
+Definition simple_label (l : bytes) : Prop := l <> [] /\ ~ In 46 l /\ ~ In 92 l.
+
+Lemma pen_dotted_simple : forall ls s acc, Forall simple_label ls ->
+  pen (dotted ls ++ s) [] acc = pen s [] (rev ls ++ acc).
+Proof.
+  induction ls as [|l t IH]; intros s acc H; [reflexivity|].
+  inversion H as [|? ? (Hne & H46 & H92) Ht]; subst.
+  rewrite dotted_cons, <- !app_assoc. rewrite pen_simple by assumption.
+  cbn [app pen]. change (DOT =? BSL) with false. cbv iota. rewrite N.eqb_refl.
+  destruct l as [|x l]; [congruence|]. cbn [push_label].
+  rewrite IH by exact Ht. cbn [rev]. rewrite <- app_assoc. reflexivity.
+Qed.
+
+Lemma name_labels_dotted_simple : forall ls, Forall simple_label ls ->
+  name_labels (dotted ls) = ls.
+Proof.
+  intros ls H. destruct ls as [|l0 t0] using rev_ind; [reflexivity|]. clear IHt0.
+  apply Forall_app in H as [Ht Hl]. inversion Hl as [|? ? (Hne & H46 & H92) _]; subst.
+  unfold name_labels. rewrite dotted_app. cbn [dotted flat_map]. rewrite app_nil_r, !app_assoc.
+  change [46] with [DOT]. rewrite strip_dot_app_dot. unfold parse_escaped_name.
+  rewrite pen_dotted_simple by exact Ht.
+  rewrite <- (app_nil_r l0) at 1. rewrite pen_simple by assumption.
+  cbn [pen app]. destruct l0 as [|x l0]; [congruence|]. cbn [push_label rev].
+  rewrite app_nil_r, rev_involutive. reflexivity.
+Qed.
+
+Lemma dotted_fits_simple : forall ls,
+  Forall (fun l => l <> [] /\ (length l <= 63)%nat /\ ~ In 46 l /\ ~ In 92 l) ls ->
+  name_fits (dotted ls) = true.
+Proof.
+  intros ls H. unfold name_fits. rewrite name_labels_dotted_simple.
+  - apply forallb_forall. intros l Hl. rewrite Forall_forall in H.
+    destruct (H l Hl) as (_ & Hlen & _). unfold blen. lia.
+  - eapply Forall_impl; [|exact H]. intros l (Hne & _ & H46 & H92). repeat split; assumption.
 Qed.
 
 (* ================================================================================== *)
@@ -214,18 +285,29 @@ Qed.
 
 (* ---- vocabulary ---- *)
 
+(* a name the decoder accepts: UTF-8 labels whose dotted text passes the decoder's
+   name_fits test (every label of the re-split text is at most 63 bytes) *)
+Definition name_fitsb_labels (ls : rlabels) : bool := name_fits (dotted ls).
+Definition name_okb (ls : rlabels) : bool := labels_okb ls && name_fitsb_labels ls.
+
+Lemma name_okb_inv ls : name_okb ls = true -> labels_ok ls /\ name_fits (dotted ls) = true.
+Proof.
+  unfold name_okb, name_fitsb_labels. intros H. apply andb_true_iff in H as [H1 H2].
+  apply labels_okb_ok in H1. split; assumption.
+Qed.
+
 Definition rdata_in_vocab (ty : N) (rd : ref_rdata) : bool :=
   match rd with
-  | FName ls => labels_okb ls
-  | FSrv _ _ _ ls => labels_okb ls
+  | FName ls => name_okb ls
+  | FSrv _ _ _ ls => name_okb ls
   | FRaw b => (ty =? 16) || ((ty =? 1) && (blen b =? 4)) || ((ty =? 28) && (blen b =? 16))
   end.
 
 Definition rr_in_vocab (r : ref_rr) : bool :=
-  labels_okb (fr_name r) && rdata_in_vocab (fr_type r) (fr_data r).
+  name_okb (fr_name r) && rdata_in_vocab (fr_type r) (fr_data r).
 
 Definition q_in_vocab (q : ref_q) : bool :=
-  labels_okb (fq_name q) && known_type (fq_type q).
+  name_okb (fq_name q) && known_type (fq_type q).
 
 (* within the vocabulary, the presentation exists *)
 Lemma rdata_in_vocab_present ty rd :
@@ -259,8 +341,8 @@ Proof.
   { destruct (ref_name d off) as [[ls o]|] eqn:En; [|discriminate].
     destruct (o =? off + rdlen) eqn:Eo; [|discriminate]. apply N.eqb_eq in Eo. subst o.
     injection H as Hrd. subst rd. cbn [rdata_in_vocab present_rdata] in Hv, Hp.
-    injection Hp as Hx. subst x. apply labels_okb_ok in Hv.
-    pose proof (read_name_ref d off ls _ Hwf En Hv) as Hn.
+    injection Hp as Hx. subst x. apply name_okb_inv in Hv as [Hv Hfit].
+    pose proof (read_name_ref d off ls _ Hwf En Hv Hfit) as Hn.
     pose proof (read_name_offset _ _ _ _ Hn) as [_ Hle].
     split; [|split; [exact Hle|]].
     - unfold known_type. apply orb_true_iff in Eptr as [E|E]; rewrite E;
@@ -275,8 +357,8 @@ Proof.
     destruct (ref_name d (off + 6)) as [[ls o]|] eqn:En; [|discriminate].
     destruct (o =? off + rdlen) eqn:Eo; [|discriminate]. apply N.eqb_eq in Eo. subst o.
     injection H as Hrd. subst rd. cbn [rdata_in_vocab present_rdata] in Hv, Hp.
-    injection Hp as Hx. subst x. apply labels_okb_ok in Hv.
-    pose proof (read_name_ref d (off + 6) ls _ Hwf En Hv) as Hn.
+    injection Hp as Hx. subst x. apply name_okb_inv in Hv as [Hv Hfit].
+    pose proof (read_name_ref d (off + 6) ls _ Hwf En Hv Hfit) as Hn.
     pose proof (read_name_offset _ _ _ _ Hn) as [_ Hle].
     split; [reflexivity|]. split; [exact Hle|].
     change (read_rdata d 33 off rdlen) with
@@ -335,14 +417,14 @@ Proof.
   destruct (ref_rdata_at d ty (o1 + 10) rdlen) as [rd|] eqn:Erd; [|discriminate].
   injection H as Hr Ho. subst r o.
   unfold rr_in_vocab in Hv. cbn [fr_name fr_type fr_data] in Hv.
-  apply andb_true_iff in Hv as [Hls Hrdv]. apply labels_okb_ok in Hls.
+  apply andb_true_iff in Hv as [Hls Hrdv]. apply name_okb_inv in Hls as [Hls Hfit].
   unfold present_rr in Hp. cbn [fr_name fr_type fr_data fr_class fr_ttl] in Hp.
   destruct (present_rdata ty rd) as [x|] eqn:Ex; [|discriminate].
   injection Hp as Hpr. subst pr.
   destruct (read_rdata_ref d ty (o1 + 10) rdlen rd x Hwf Erd Hrdv Ex) as (Hk & Hle & Hrdata).
   apply ref_u16_at in Ety as [Hty _]. apply ref_u16_at in Ecl as [Hcl _].
   apply ref_u32_at in Ettl as [Httl _]. apply ref_u16_at in Erl as [Hrl Hrl10].
-  unfold read_one_rr. rewrite (read_name_ref d off ls o1 Hwf En Hls). cbn [bind].
+  unfold read_one_rr. rewrite (read_name_ref d off ls o1 Hwf En Hls Hfit). cbn [bind].
   destruct (len d - o1 <? 10) eqn:E10; [lia|].
   rewrite Hty, Hcl, Httl, Hrl. cbn [bind]. cbv zeta.
   destruct (len d <? o1 + 10 + rdlen) eqn:En2; [lia|].
@@ -382,10 +464,10 @@ Proof.
   destruct (ref_u16 d (o1 + 2)) as [cl|] eqn:Ecl; [|discriminate].
   injection H as Hq Ho. subst q o.
   unfold q_in_vocab in Hv. cbn [fq_name fq_type] in Hv.
-  apply andb_true_iff in Hv as [Hls Hk]. apply labels_okb_ok in Hls.
+  apply andb_true_iff in Hv as [Hls Hk]. apply name_okb_inv in Hls as [Hls Hfit].
   apply ref_u16_at in Ety as [Hty _]. apply ref_u16_at in Ecl as [Hcl Hcl4].
   cbn [read_questions]. apply N.eqb_neq in Hc. rewrite Hc.
-  rewrite (read_name_ref d off ls o1 Hwf En Hls). cbn [bind].
+  rewrite (read_name_ref d off ls o1 Hwf En Hls Hfit). cbn [bind].
   destruct (len d - o1 <? 4) eqn:E4; [lia|].
   rewrite Hty, Hcl. cbn [bind]. rewrite Hk. reflexivity.
 Qed.
@@ -401,8 +483,8 @@ Proof.
   destruct (ref_u16 d (o1 + 2)) as [cl|] eqn:Ecl; [|discriminate].
   injection H as Hq Ho. subst q o.
   unfold q_in_vocab in Hv. cbn [fq_name fq_type] in Hv.
-  apply andb_true_iff in Hv as [Hls _]. apply labels_okb_ok in Hls.
-  pose proof (read_name_offset _ _ _ _ (read_name_ref d off ls o1 Hwf En Hls)) as [Hlt _].
+  apply andb_true_iff in Hv as [Hls _]. apply name_okb_inv in Hls as [Hls Hfit].
+  pose proof (read_name_offset _ _ _ _ (read_name_ref d off ls o1 Hwf En Hls Hfit)) as [Hlt _].
   apply ref_u16_at in Ecl as [_ Hle]. lia.
 Qed.
 
